@@ -52,6 +52,8 @@ def run(ctx: Ctx) -> None:
              '(Euler: derivative of a degree-1 function)')
     ctx.rule('C06.R2', 'scale-one specialisation: the per-alternative term of the scaled builder with mu := 1 equals, in sympy normal form, the term of the '
              'unscaled builder, for nest members and for alternatives alone (log and logzero are distinguished: they differ at 0)')
+    ctx.rule('C06.R5', 'one family member, two spellings: in each MEV builder the branch without availabilities sums the same term over the same alternatives as the '
+             'branch with availabilities, apart from the availability guard (passing availabilities all equal to one does not change the model)')
     ctx.rule('C06.R3', 'legacy nest syntax: from_tuple is cls(*tuple) with the dataclass fields in the documented tuple order; every builder converts a legacy '
              'tuple with choice_set=list(util) and validates the nests before it iterates over them')
     ctx.rule('C06.R4', 'zero-membership: the log of a sum whose every term carries a user-supplied weight alpha (which may be 0) is logzero, so that an '
@@ -112,6 +114,19 @@ def run(ctx: Ctx) -> None:
                 msg = f'{kind} term of {scaled} with mu=1 is {ts}, {plain} has {tp}' + (' (they differ only in log vs logzero, i.e. when the argument is 0)' if loose else '')
             ctx.add('C06.R2', f'{plain}/{scaled}:{kind}', ok, (fs.file, bs[0].line), msg, detail='' if ok else ('differs only in log vs logzero' if loose else f'{tp} || {ts}'))
     ctx.floor('C06.R2', 4)
+
+    # ---- R5: one model with and without availabilities
+    from .c05 import availability_rule
+
+    sub = Ctx(prog, ctx.prop, ctx.tier)
+    availability_rule(sub, 'C06.R5')
+    nb = 0
+    for o in sub.obligations:
+        if o.construct.endswith(':branches'):
+            nb += 1
+            ctx.add('C06.R5', o.construct, o.ok, (o.file, o.line), o.message, o.detail)
+    if nb < 5:
+        raise AnalysisError(f'C06.R5: only {nb} pairs of availability branches found in the MEV builders')
 
     # ---- R4
     for mod, name in ((CNL, 'get_mev_for_cross_nested'), (CNL, 'get_mev_for_cross_nested_mu')):
